@@ -781,6 +781,19 @@ def assumption_scan(text):
     return out
 
 
+def assume_lemmas(text):
+    """mark every top-level proof fn of a preamble text external_body (idempotent)"""
+    out = []
+    prev = ""
+    for ln in text.split("\n"):
+        if re.match(r'^(pub\s+)?(broadcast\s+)?proof fn\b', ln) and "external_body" not in prev:
+            out.append("#[verifier::external_body]")
+        out.append(ln)
+        if ln.strip():
+            prev = ln
+    return "\n".join(out)
+
+
 def build_group(name, canary=True):
     """extract + assemble; returns dict with paths and assembled objects"""
     group = load_group(name)
@@ -791,6 +804,11 @@ def build_group(name, canary=True):
     units = {}
     for cf in group["contracts"]:
         pre, us = parse_contract(os.path.join(ROOT, cf))
+        if cf in group.get("lemmas_assumed_from", []):
+            # the proof functions of this file are PROVED by the group that owns the file (it loads the same text); here
+            # they are taken as given (external_body) so that a lean group does not re-verify — and cannot be destabilised
+            # by — lemmas it does not use. Counted by the assumption scan; check.py's audit verifies the owner proves them.
+            pre = assume_lemmas(pre)
         preamble_parts.append("// ---- from %s\n%s" % (cf, pre))
         for uid, u in us.items():
             allowed = group.get("unit_files", {}).get(uid)
@@ -820,7 +838,8 @@ def build_group(name, canary=True):
     c = None
     can_path = None
     if canary:
-        c = assemble(group, items, units, preamble, canary=True)
+        # the canary file only has to show that the must-fail units fail: the preamble's lemmas are proved in the main file
+        c = assemble(group, items, units, assume_lemmas(preamble), canary=True)
         can_path = os.path.join(wd, "canary.rs")
         open(can_path, "w").write(c.text())
     return {"group": group, "items": items, "units": units, "main": a, "main_path": main_path, "canary": c, "canary_path": can_path, "workdir": wd, "preamble": preamble}
